@@ -125,7 +125,27 @@ theorem abort_after_more_disturbs_the_next :
      (stepBad (some { id := some 1, tag := some [1], fmt := some 0, settled := none, buf := [[7]] })
         ⟨some 1, none, none, none, true, true, [9, 9]⟩).1.isSome) = true := by decide
 
+/-- generated obligation: in `on_incomplete_transfer` the frame is checked before its payload is kept -/
+theorem source_checked_before_kept : checkedBeforeKept = true := by decide
+
+/-- **refused_frame_leaves_nothing (C10).** A continuation frame whose delivery-id, tag or format
+    contradicts the delivery in progress is reported as an error and leaves that delivery exactly as it
+    was: whatever frames follow, the message that comes out at the last one is made of the payloads
+    of the frames that were accepted, the refused frame's bytes are not among them. -/
+theorem refused_frame_leaves_nothing (i : Inc) (f : Frame) (hm : f.more = true) (ha : f.aborted = false)
+    (hc : merge i f = none) : step (some i) f = (some i, .inconsistent) := by
+  simp [step, source_abort_first, source_checked_before_kept, ha, hm, hc]
+
+/-- with the other order (what a seeded reordering does) the refused frame's payload stays in the buffer
+    and the last frame delivers a spliced message -/
+example : (let i : Inc := { id := some 1, tag := some [1], fmt := some 0, settled := none, buf := [[7]] }
+    ({ i with buf := i.buf ++ [[9, 9]] } : Inc).buf.flatten) = [7, 9, 9] := by decide
+
 /-! ### non-vacuity -/
+example : (run none [⟨some 7, some [1], some 0, none, true, false, [1, 2]⟩, ⟨some 8, none, none, none, true, false, [66]⟩,
+    ⟨some 7, none, none, none, false, false, [3]⟩]).2 =
+    [.nothing, .inconsistent, .delivery 7 [1] (some 0) false [1, 2, 3]] := by decide
+
 example : (run none [⟨some 7, some [1], some 0, none, true, false, [1, 2]⟩,
     ⟨none, none, none, none, true, false, []⟩, ⟨some 7, none, none, none, false, false, [3]⟩]).2 =
     [.nothing, .nothing, .delivery 7 [1] (some 0) false [1, 2, 3]] := by decide
